@@ -3,7 +3,9 @@
    | (4 vs) column | (5 r c) from_fn | (6 r c v) empty.   op: (0 r v) insert_row | (1 r vs) insert_row_with | (2 c v) insert_column |
    (3 c vs) insert_column_with | (4 r) remove_row | (5 c) remove_column | (6 S S) retain_mut |
    (7 S S) m = m.retain | (8) m = m.transpose() | (9) transpose_mut | (10 r c v) set | (11 k) map_mut
-   | (12 k) map_mut_with_index.  S: (0) All (1) None (2 i) Single (3 a b) Range (4 S) Not (5 S S) And
+   | (12 k) map_mut_with_index | (13 rp cp k v) partition(&rp, &cp), part k filled with v, borrow
+   ended (2 = partition panicked).  (11 2 S S (i ...)): Slice::accepts / Slice2D::accepts at the
+   probes, for the enum-built and the method-built (`not` / `and` / `or`, `slices::new()`) slices.  S: (0) All (1) None (2 i) Single (3 a b) Range (4 S) Not (5 S S) And
    (6 S S) Or.  Result: (2) constructor panicked, or (0 (obs (o obs)...)) with o = 0 returned /
    2 panicked and obs = (size, all get(r,c), row_major_iter, column_major_iter, stored data) after
    EVERY step; the object keeps being used after a caught panic.
@@ -18,8 +20,11 @@ from tools.vlib import sx, MAXU
 THEOREMS_FILE = "C11"
 TRUSTED = ["harness/src/c11.rs reads the stored data by parsing the derived Debug output of Matrix (`data: [...]`)"]
 ASSUMPTIONS = [
-    "C11_refines / C11_final_state assume that the element count fits a usize before every operation (`all_fit`): true of "
-    "every Vec; Clone and transpose re-validate the size with checked_mul and would otherwise panic",
+    "C11_refines / C11_final_state assume that the element count fits a usize before every operation (`all_fit`); "
+    "C11_all_fit_iff_allocated shows this is exactly `the implementation's own Vec holds at most usize::MAX elements before "
+    "every operation`, and C11_refines_allocated states the history theorem under `every state passed through is a Vec of "
+    "at most isize::MAX elements`, which every execution satisfies for element types that are not zero sized; what "
+    "Vec::insert does when it runs out of capacity (panic in the middle of an insertion) is not modelled",
     "row_major_iter / column_major_iter are compared with the model's get(r, c) listing in that order (the iterators' own "
     "counters are C09's subject)",
     "histories are run with the element types i64 and a heap allocated non-Copy newtype; the theorems hold for every type",
@@ -110,6 +115,9 @@ def alphabet(full):
     for (r, c) in ([(0, 0), (1, 2), (2, 1), (3, 0), (0, 3)] if full else [(1, 1), (0, 3)]):
         ops.append([10, r, c, f.one()])
     ops += [[11, 5], [12, 3]]
+    ops += [[13, [1], [1], 3, f.one()], [13, [], [2], 0, f.one()], [13, [2, 1], [], 0, f.one()], [13, [0], [4], 1, f.one()]]
+    if full:
+        ops += [[13, [1, 2], [0, 1], 4, f.one()], [13, [1, 2, 2], [], 2, f.one()], [13, [], [1, 3, 2], 0, f.one()]]
     return ops
 
 
@@ -121,7 +129,7 @@ def random_history_parts(rng, maxlen):
     ops = []
     for _ in range(rng.randrange(1, maxlen + 1)):
         bad = rng.random() < 0.16
-        k = rng.choice([0, 0, 1, 1, 2, 2, 3, 3, 4, 4, 5, 5, 6, 6, 7, 8, 9, 9, 10, 11, 12])
+        k = rng.choice([0, 0, 1, 1, 2, 2, 3, 3, 4, 4, 5, 5, 6, 6, 7, 8, 9, 9, 10, 11, 12, 13, 13])
         if r * c > 120 and k in (0, 1, 2, 3):
             k = rng.choice([4, 5, 6])
         big = rng.choice([MAXU, MAXU - 1, 2 ** 63, 2 ** 32])
@@ -182,8 +190,18 @@ def random_history_parts(rng, maxlen):
             ops.append([10, i, j, f.one()])
         elif k == 11:
             ops.append([11, rng.randrange(-9, 10)])
-        else:
+        elif k == 12:
             ops.append([12, rng.randrange(-9, 10)])
+        else:
+            rp = sorted(rng.sample(range(min(r, 8) + 1), rng.randrange(0, min(3, r + 1) + 1)))
+            cp = sorted(rng.sample(range(min(c, 8) + 1), rng.randrange(0, min(3, c + 1) + 1)))
+            if bad:
+                t = rng.randrange(4)
+                if t == 0: rp = rp + [rng.choice([0, r + 1, big])]
+                elif t == 1: cp = [rng.choice([c, c + 1, big])] + cp
+                elif t == 2: rp = [1, 2, 2] if r >= 2 else [1, 1]
+                else: cp = list(reversed(cp)) if len(cp) > 1 else [c + 1]
+            ops.append([13, rp, cp, rng.randrange((len(rp) + 1) * (len(cp) + 1) + 1), f.one()])
     return start, ops, r, c
 
 
@@ -227,7 +245,7 @@ def gen(tier, rng):
     # every sequence of 3 operations over a tiny alphabet (valid and invalid arguments of every kind)
     tiny = [[0, 1, 801], [1, 1, [811, 812, 813]], [2, 0, 821], [3, 2, [831, 832, 833, 834]], [4, 0], [4, 3], [5, 1],
             [6, single(1), ALL], [6, ALL, not_(single(0))], [7, NONE, ALL], [8], [9], [10, 1, 1, 841], [10, 0, 3, 842],
-            [11, 5], [12, 3]]
+            [11, 5], [12, 3], [13, [1], [1], 3, 851], [13, [2, 1], [], 0, 852]]
     if quick:
         for r in range(1, 4):
             for c in range(1, 4):
@@ -246,6 +264,14 @@ def gen(tier, rng):
         for sc in SLICES:
             yield sx([11, 1, start_case(4, 4, 1), [[6, sr, sc], [7, sc, sr]]])
             yield sx([11, 1, start_case(3, 2, 0), [[7, sr, sc], [6, sc, sr]]])
+    # Slice::accepts / Slice2D::accepts directly, enum-built against method-built
+    probes = [0, 1, 2, 3, 4, MAXU, MAXU - 1, 2 ** 63]
+    deep = [not_(and_(or_(single(0), rng_(2, 4)), not_(single(3)))), or_(not_(ALL), and_(ALL, not_(NONE))),
+            and_(not_(not_(rng_(1, MAXU))), or_(NONE, single(MAXU)))]
+    for sr in SLICES + deep:
+        for sc in SLICES + deep:
+            yield sx([11, 2, sr, sc, probes])
+    yield sx([11, 2, ALL, NONE, []])
     # indexes at the top of the usize range never alias a valid one
     for big in (MAXU, MAXU - 1, 2 ** 63, 2 ** 32, 2 ** 32 + 1):
         yield sx([11, 1, start_case(2, 3, 0), [[0, big, 1], [1, big, [1, 2, 3]], [2, big, 1], [3, big, [1, 2]],
@@ -264,6 +290,8 @@ _STEP = re.compile(r"\((0|2) \(\(\d+ \d+\)")
 def nontrivial(case, model_out):
     """a successfully constructed matrix followed by at least two operations of which at least one
     returned normally (the panicking ones are then followed by continued use of the object)"""
+    if case.startswith("(11 2"):
+        return "1" in model_out and "0" in model_out
     if not model_out.startswith("(0 ((("):
         return False
     steps = _STEP.findall(model_out[5:])
@@ -272,12 +300,14 @@ def nontrivial(case, model_out):
 
 def distribution(lines):
     names = ["insert_row", "insert_row_with", "insert_column", "insert_column_with", "remove_row", "remove_column",
-             "retain_mut", "retain", "transpose", "transpose_mut", "set", "map_mut", "map_mut_with_index"]
+             "retain_mut", "retain", "transpose", "transpose_mut", "set", "map_mut", "map_mut_with_index", "partition_fill"]
     from tools.vlib import parse_sx
     counts = dict.fromkeys(names, 0)
     lens = {}
     for ln in lines[::max(1, len(lines) // 20000)]:
         t = parse_sx(ln)
+        if t[1] != 1:
+            continue
         ops = t[3]
         b = "len<=3" if len(ops) <= 3 else ("len<=40" if len(ops) <= 40 else "len>40")
         lens[b] = lens.get(b, 0) + 1
